@@ -572,7 +572,7 @@ func runC16(tier, replay string) int {
 		return c.Finish()
 	}
 	gen := &c16Gen{rng: rng, res: res, labelSets: labelSets, suspects: suspects, exact: exact}
-	nCases := c.Pick(1300, 30000)
+	nCases := c.Pick(1400, 30000)
 	if v, err := strconv.Atoi(os.Getenv("C16_CASES")); err == nil && v > 0 {
 		nCases = v // development aid: a smaller sample
 	}
@@ -619,7 +619,23 @@ func runC16(tier, replay string) int {
 	// every word of the independent reserved lists is used at least once per run (on the richest program)
 	for _, b := range kindBases {
 		if b.prog.ID == "kinds1" && b.opt == drive.OptNames(b.backend)[0] {
-			for _, cs := range gen.cover(b, int(c.Seed)) {
+			cov := gen.cover(b, int(c.Seed))
+			// every non-ASCII identifier of the pool, in three rotations (so that each meets several declaration kinds)
+			for r := 0; r < 3; r++ {
+				cov = append(cov, gen.coverWords(b, int(c.Seed)+13*r, c16x.NonASCII, "nonascii")...)
+			}
+			for _, cs := range cov {
+				if k := cs.key(); !seen[k] {
+					seen[k] = true
+					cases = append(cases, cs)
+				}
+			}
+		}
+	}
+	// twins: names that differ only in what the sanitiser removes, across scopes (up to 12 per program and backend, three programs)
+	for _, b := range kindBases {
+		if id := b.prog.ID; b.opt == drive.OptNames(b.backend)[0] && (id == "kinds1" || id == "kinds2" || id == "shadow") {
+			for _, cs := range gen.twins(b) {
 				if k := cs.key(); !seen[k] {
 					seen[k] = true
 					cases = append(cases, cs)
